@@ -489,7 +489,13 @@ fn script_long(rng: &mut Rng, _tier: Tier, ex: &mut dyn FnMut(&str) -> String) {
         }
         ex("upd c0 101000");
         ex("upd srv 101000");
+        if rng.chance(1, 3) {
+            ex("dump c0"); // dump + flush: the ack packet is the recorded set, whatever the channels used of the budget
+        }
         net.flush(rng, ex, "c0", "s100", tick, loss, 5, 10);
+        if rng.chance(1, 3) {
+            ex("dump s100");
+        }
         net.flush(rng, ex, "s100", "c0", tick, loss, 5, 10);
         net.deliver_due(rng, ex, tick, true);
         drain(ex, "s100", 2, 100_000);
@@ -1966,6 +1972,49 @@ fn volume_ops(case: usize) -> Vec<String> {
             }
             ops.push("stat c0".into());
         }
+        8 | 9 => {
+            // message id AND packet sequence both need 4-byte varints (>= 16384), then reliable messages just below the
+            // slicing threshold: the largest single-message packets the reliable channel can build (seeded C13t)
+            let c = chans(300_000);
+            ops.push(cfg_line(200_000, &c, &c));
+            ops.extend(["cli 0", "add 100", "setc 0"].iter().map(|x| x.to_string()));
+            let rel = if case == 8 { 1 } else { 2 };
+            for _ in 0..16_384 {
+                ops.push(format!("send c0 {} bb", rel));
+            }
+            ops.push("upd c0 1000".into());
+            ops.push("upd srv 1000".into());
+            ops.push("flush c0".into());
+            for k in 0..150 {
+                ops.push(format!("dlv s100 c0 {}", k)); // beyond the flush: nohist on both sides alike
+            }
+            ops.push("flush s100".into());
+            ops.push("dlv c0 s100 0".into()); // everything acknowledged: nothing is left to retransmit
+            ops.push("dump c0".into());
+            for k in 0..16_384 {
+                ops.push("send c0 0 aa".into());
+                ops.push("flush c0".into());
+                if k % 256 == 255 {
+                    ops.push("upd c0 3100000".into()); // the records of sent packets older than 3 s are dropped: keeps the run cheap
+                }
+            }
+            for (k, len) in (1188usize..=1201).enumerate() {
+                ops.push(format!("send c0 {} {}", rel, hex(&pat(len, 60 + k as u8))));
+                ops.push("upd c0 1000".into());
+                ops.push("flush c0".into());
+                ops.push("stat c0".into());
+            }
+            // the same sizes packed together with a neighbour in one flush
+            for (k, len) in [1199usize, 1200, 1195].iter().enumerate() {
+                ops.push(format!("send c0 {} {}", rel, hex(&pat(3, 90 + k as u8))));
+                ops.push(format!("send c0 {} {}", rel, hex(&pat(*len, 80 + k as u8))));
+                ops.push(format!("send c0 {} {}", rel, hex(&pat(3, 95 + k as u8))));
+                ops.push("upd c0 1000".into());
+                ops.push("flush c0".into());
+            }
+            ops.push("stat c0".into());
+            ops.push("dump c0".into());
+        }
         _ => {
             // one tick: unreliable small messages that need two packets + reliable traffic; the reliable packet is lost,
             // everything else arrives and is acknowledged; then a perfect network
@@ -3198,12 +3247,12 @@ pub fn profiles() -> Vec<Profile> {
     Profile {
         name: "rn-volume-seq",
         props: &["C13", "C16"],
-        cases: |_| 2,
+        cases: |_| 4,
         new_world,
         script: script_none,
         nontrivial: |_| true,
         keep: |_| 4,
-        fixed: Some(|c| volume_ops(2 + c)),
+        fixed: Some(|c| volume_ops(if c < 2 { 2 + c } else { 6 + c })),
     },
     Profile {
         name: "rn-volume-mixed",
@@ -3358,6 +3407,57 @@ pub fn peer_of(who: &str) -> Option<String> {
 pub fn send_kind(cfg: &Cfg, who: &str, ch: u8) -> Option<String> {
     let list = if who.starts_with('c') { &cfg.client } else { &cfg.server };
     list.iter().find(|c| c.0 == ch).map(|c| c.1.clone())
+}
+
+/// C16 / C08 on live connections: "an ack packet denotes exactly the set recorded as received". Wherever a `dump X` is
+/// directly followed by `flush X` and the flush emitted at least one datagram, the recorded set is the dump's `acks=[…]`
+/// (hook `verif_dump`, read-only) and the datagrams are read with the independent wire reader: a non-empty recorded set
+/// must appear as exactly one Ack packet, the last datagram of the flush, with exactly those ranges — whatever the channels
+/// used of the tick budget —; an empty one as no Ack packet at all. (A flush without datagrams is not judged: a
+/// disconnected connection emits nothing.)
+fn oracle_ack_is_recorded_set(ops: &[String], outs: &[String]) -> Option<OracleFail> {
+    for i in 1..ops.len() {
+        let who = match ops[i].strip_prefix("flush ") {
+            Some(w) => w,
+            None => continue,
+        };
+        if ops[i - 1] != format!("dump {}", who) || !outs[i - 1].starts_with("seq=") {
+            continue;
+        }
+        let pk = flush_packets(&outs[i]);
+        if pk.is_empty() {
+            continue;
+        }
+        let recorded = head_field(&outs[i - 1], "acks").unwrap_or("");
+        let mut acks: Vec<(usize, String)> = vec![];
+        let mut undecodable = false;
+        for (k, p) in pk.iter().enumerate() {
+            match decode(p) {
+                Some(WPacket::Ack { ack_ranges, .. }) => {
+                    let r: Vec<String> = ack_ranges.iter().map(|r| format!("{}-{}", r.start, r.end)).collect();
+                    acks.push((k, r.join(";")));
+                }
+                Some(_) => {}
+                None => undecodable = true,
+            }
+        }
+        if undecodable {
+            continue; // judged by the wire oracles
+        }
+        if recorded.is_empty() {
+            if !acks.is_empty() {
+                return fail(i, "ack-without-recorded-set", format!("{} emitted an ack packet [{}] although nothing is recorded as received", who, acks[0].1));
+            }
+            continue;
+        }
+        if acks.len() != 1 || acks[0].0 != pk.len() - 1 {
+            return fail(i, "ack-packet-missing", format!("{} has [{}] recorded as received but its flush of {} datagrams carries {} ack packets (expected exactly one, last)", who, &recorded[..recorded.len().min(120)], pk.len(), acks.len()));
+        }
+        if acks[0].1 != recorded {
+            return fail(i, "ack-not-the-recorded-set", format!("{} has [{}] recorded as received but its ack packet says [{}]", who, &recorded[..recorded.len().min(160)], &acks[0].1[..acks[0].1.len().min(160)]));
+        }
+    }
+    None
 }
 
 fn fail(at: usize, sig: &str, what: String) -> Option<OracleFail> {
@@ -5375,6 +5475,9 @@ pub fn oracles() -> Vec<Oracle> {
         Oracle { prop: "C08", name: "ack-encoding-roundtrip", engines: &["rn-wire"], check: oracle_c16_acks },
         Oracle { prop: "C16", name: "emitted-roundtrip", engines: &["rn-volume-seq", "rn-acks", "rn-long"], check: oracle_c16_emitted },
         Oracle { prop: "C16", name: "acks-are-the-set", engines: &["rn-sweep-acks"], check: oracle_sweep_acks },
+        Oracle { prop: "C16", name: "ack-is-the-recorded-set", engines: &["rn-long", "rn-acks", "rn-volume-seq"], check: oracle_ack_is_recorded_set },
+        Oracle { prop: "C08", name: "ack-is-the-recorded-set", engines: &["rn-pair", "rn-long", "rn-acks", "rn-timing", "rn-multi-ackgap", "rn-volume-mixed", "rn-volume-acks", "rn-timing-overflow"], check: oracle_ack_is_recorded_set },
+        Oracle { prop: "C01", name: "ack-is-the-recorded-set", engines: &["rn-pair", "rn-long", "rn-tight", "rn-timing"], check: oracle_ack_is_recorded_set },
         Oracle { prop: "C08", name: "acks-are-the-set", engines: &["rn-sweep-acks"], check: oracle_sweep_acks },
         Oracle { prop: "C06", name: "no-panic-bounded", engines: &["rn-"], check: oracle_c06 },
         Oracle { prop: "C09", name: "query-api", engines: &["rn-pair"], check: oracle_cansend },
